@@ -83,8 +83,10 @@ func genLivenessScript(r *rand.Rand, kind Kind, http bool) *Script {
 	consumed := false
 	for i := 0; i < nh; i++ {
 		op := pick(r, "recv", "recv", "send", "send", "sethdr", "sendhdr", "settrl", "recvall")
-		if http && !consumed && (op == "send" || op == "sendhdr") && r.Intn(4) != 0 {
-			op = "recvall" // mostly respect half-duplex; sometimes not
+		if http && !consumed && (op == "send" || op == "sendhdr") {
+			// half-duplex: over HTTP/1.1 a handler cannot read the request any more once it has started
+			// to reply (documented caveat of the transport), so it consumes the request first
+			op = "recvall"
 		}
 		switch op {
 		case "send":
@@ -110,12 +112,14 @@ func genLivenessScript(r *rand.Rand, kind Kind, http bool) *Script {
 }
 
 func checkC05(e *core.Env) {
+	curEnv = e
 	e.SetRule("bounded random programs: a client sender goroutine (Send*, CloseSend, double CloseSend, Send after CloseSend, cancel) and a client receiver goroutine (Recv*, Header, Trailer, CloseSend racing the sender, cancel) against handlers (Recv*, Send*, SetHeader, SendHeader, SetTrailer, early return ok/error, a goroutine that keeps sending after the handler returned), then operations after completion; in-process (full duplex) and HTTP (incl. the handler returning while >256 KiB are still to be sent); monitors: recover() around every operation + child-crash classifier, stable-park deadlock detector over goroutine dumps once the handler returned or the context ended, result check for sends issued after the handler finished, goroutine-leak monitor after each batch; distinct = (carrier, script shape)")
 	e.Assume("a hang counts only when every actor/library goroutine is parked in a blocking primitive at identical frames over several samples and none is runnable; script-level waits (neither side obliged to move) are resolved by cancelling the context, after which everything must terminate")
 	runC05(e, e.N(400, 3000))
 }
 
 func runC05(e *core.Env, n int) {
+	curEnv = e
 	inp := NewInproc(&Service{}, carrierOpt{})
 	htt := NewHTTPServer(&Service{}, carrierOpt{})
 	defer inp.Close()
@@ -310,6 +314,7 @@ func runPostOps(run *Run) []Event {
 // checkLeaks: after completed and cancelled calls no goroutine with library
 // frames may remain.
 func checkLeaks(e *core.Env, when string) {
+	curEnv = e
 	var left []string
 	lastSig, same := "", 0
 	for i := 0; i < 60; i++ {
